@@ -121,7 +121,10 @@ func (u *Universe) computeShapes(ti *TypeInfo) error {
 		if err != nil {
 			return err
 		}
-		if f.Oneof >= 0 && sh.T != 'm' {
+		// a oneof member: the wrapper is the option. A pointer inside the wrapper (messages, Timestamp/Duration casts
+		// without always_present) is not a second level of presence - the domain of the properties is "wrappers holding
+		// non-nil pointers" - so (o x) = selected wrapper with a non-nil pointer, (o) / (m) = member not selected.
+		if f.Oneof >= 0 && sh.T != 'm' && sh.T != 'o' {
 			sh = &Shape{T: 'o', Elem: sh}
 		}
 		ti.Shapes = append(ti.Shapes, sh)
